@@ -25,6 +25,7 @@ import (
 
 	"github.com/olric-data/olric/internal/cluster/partitions"
 	"github.com/olric-data/olric/internal/protocol"
+	"github.com/olric-data/olric/internal/verifhook"
 )
 
 var (
@@ -60,6 +61,7 @@ func (dm *DMap) unlockKey(ctx context.Context, key string, token []byte) error {
 	if !bytes.Equal(entry.Value(), token) {
 		return ErrNoSuchLock
 	}
+	verifhook.At("unlock.checked", dm.name, key)
 
 	// release it.
 	_, err = dm.deleteKeys(ctx, key)
@@ -193,6 +195,7 @@ func (dm *DMap) leaseKey(ctx context.Context, key string, token []byte, timeout 
 		// already expired
 		return ErrNoSuchLock
 	}
+	verifhook.At("lease.checked", dm.name, key)
 
 	// update
 	err = dm.Expire(ctx, key, timeout)
